@@ -59,6 +59,7 @@ type poolFont struct {
 	features []string   // feature tags of the font's own GSUB and GPOS
 	langs    []string   // "x-hbsc<script>-hbot<language>": the font's own script/language systems
 	tables   []tableRec // nil unless the file is a plain sfnt (single font)
+	aat      bool       // has morx/mort/kerx/trak/feat/ankr tables (shaped through the AAT code)
 	covered  []rune     // synthetic fonts: the runes the generated lookups cover, and a few others
 	other    []rune
 }
@@ -195,6 +196,9 @@ func loadEntry(e PoolEntry) (*poolFont, error) {
 			delete(poolCache, synthKeys[0])
 			synthKeys = synthKeys[1:]
 		}
+	}
+	for _, tg := range []string{"morx", "mort", "kerx", "trak", "feat", "ankr"} {
+		pf.aat = pf.aat || ld.HasTable(ot.MustNewTag(tg))
 	}
 	if raw, err := ld.RawTable(ot.MustNewTag("maxp")); err == nil {
 		if maxp, _, err := tables.ParseMaxp(raw); err == nil {
